@@ -1,13 +1,13 @@
 (* C09 — one leader per round, no equivocation. Pinned statements only. *)
 From Coq Require Import List NArith Permutation Sorted.
-From HS Require Import GTac Node Proto Link NodeInv NodeLog NodeMakes Global GlobalMakes Leader.
+From HS Require Import GTac Node Proto Link NodeInv NodeLog NodeMakes Global GlobalMakes LeaderDefs Leader.
 Import ListNotations.
 Open Scope N_scope.
 
-Check leader_perm : forall ks ks' r, Permutation ks ks' -> Leader.leader ks r = Leader.leader ks' r.
+Check leader_perm : forall ks ks' r, Permutation ks ks' -> LeaderDefs.leader ks r = LeaderDefs.leader ks' r.
 Print Assumptions leader_perm.
 Check c09_rotation : forall ks r, ks <> [] ->
-  Permutation (map (fun k => Leader.leader ks (r + N.of_nat k)) (seq 0 (length ks))) ks.
+  Permutation (map (fun k => LeaderDefs.leader ks (r + N.of_nat k)) (seq 0 (length ks))) ks.
 Print Assumptions c09_rotation.
 Check c09_no_equivocation : forall (c : Committee) (honest : N -> bool),
   NoDup (members c) -> 3 * byz_stake (stk c) (members c) honest < total (stk c) (members c) ->
